@@ -65,3 +65,24 @@ def rename_locals(src: str, qual: str, suffix="_rn") -> str:
 def reformat(src: str) -> str:
     """Round trip through ast.unparse: all comments dropped, every line moved."""
     return ast.unparse(ast.parse(src))
+
+
+class _Commute(ast.NodeTransformer):
+    def visit_BinOp(self, node):
+        self.generic_visit(node)
+        if isinstance(node.op, ast.Mult):
+            node.left, node.right = node.right, node.left
+        return node
+
+
+def commute_mult(src: str, qual: str) -> str:
+    """Swap the operands of every `*` in function `qual` (exactly value preserving for numbers and arrays)."""
+    tree = ast.parse(src)
+    fn = _func(tree, qual)
+    if fn is None:
+        return None
+    n = sum(1 for x in ast.walk(fn) if isinstance(x, ast.BinOp) and isinstance(x.op, ast.Mult))
+    if not n:
+        return None
+    _Commute().visit(fn)
+    return ast.unparse(ast.fix_missing_locations(tree))
